@@ -24,5 +24,14 @@ if ! git -C /repo diff --quiet; then echo "refusing: /repo dirty" >&2; exit 3; f
 git -C /repo apply "$PATCH"
 ./check "$ID" quick >"/tmp/ev-$NAME.check.log" 2>&1; CHECK=$?
 git -C /repo checkout -- .
-VIOL=$(grep -m1 "^  violation" "/tmp/ev-$NAME.check.log" | head -c 400 | sed 's/"/\\"/g')
-echo "{\"name\":\"$NAME\",\"property\":\"$ID\",\"demo_clean_exit\":$DEMO_CLEAN,\"demo_patched_exit\":$DEMO_PATCHED,\"suite_exit\":$SUITE,\"suite_failed_tests\":$SUITE_FAILS,\"check_exit\":$CHECK,\"first_violation\":\"$VIOL\"}"
+python3 - "$NAME" "$ID" "$DEMO_CLEAN" "$DEMO_PATCHED" "$SUITE" "$SUITE_FAILS" "$CHECK" "/tmp/ev-$NAME.check.log" <<'PY'
+import json, sys
+name, pid, dc, dp, su, sf, ck, log = sys.argv[1:9]
+viol = ''
+for l in open(log, errors='replace'):
+    if l.startswith('  violation'):
+        viol = l.strip()[:400]
+        break
+print(json.dumps({"name": name, "property": pid, "demo_clean_exit": int(dc), "demo_patched_exit": int(dp), "suite_exit": int(su),
+                  "suite_failed_tests": int(sf), "check_exit": int(ck), "first_violation": viol}))
+PY
